@@ -10,6 +10,7 @@ voters().len()+1 == 1.  Necessary conditions; truthfulness of match_index is not
 from .common import *
 
 EXPLANATION = __doc__
+TECHNIQUE = "static analysis of rustc MIR facts: dominance/guard and value-provenance rules plus exact symbolic decision tables of loop-free guard functions (exhaustive over weak orderings)"
 
 
 def _voter_filter_closure(F, cb):
